@@ -200,10 +200,10 @@ class Instantiator:
             wrap = outer_t
             self._expr(lhs, visible(table_schema(outer_t)), [], 'B')
             inst = subst(lhs, self._final_map())
-            return Instance(inst, choice, None, None, wrap=outer_t)
+            return Instance(inst, choice, choice.get('sortsrc') == 'pk', None, wrap=outer_t)
         self._plan(lhs, [])
         inst = subst(lhs, self._final_map())
-        return Instance(inst, choice, None, None)
+        return Instance(inst, choice, choice.get('sortsrc') == 'pk', None)
 
     def _cond_args(self, name):
         return [a for c, a in self.conds if c == name]
@@ -436,10 +436,16 @@ class Instantiator:
         return 0
 
 
-def ddl():
-    """Schema the instances live in: t0 has a primary key on c0 (range / order rules need one)."""
+def ddl(allpk=False):
+    """Schema the instances live in: t0 has a primary key on c0 (range / order rules need one); the `allpk` variant
+    gives every table one (rules whose premise is `sorted by primary key` on both inputs)."""
+    if allpk:
+        return ['create table t%d(c0 int primary key, c1 int)' % i for i in range(NTABLES)]
     return ['create table t0(c0 int primary key, c1 int)', 'create table t1(c0 int, c1 int)', 'create table t2(c0 int, c1 int)']
 
 
-def tables_for_enc():
-    return {str(i): [('$%d.%d' % (i, c), 'I') for c in range(TABLE_COLS)] for i in range(NTABLES)}
+def tables_for_enc(allpk=False):
+    t = {str(i): [('$%d.%d' % (i, c), 'I', True) for c in range(TABLE_COLS)] for i in range(NTABLES)}
+    for i in range(NTABLES if allpk else 1):
+        t[str(i)][0] = ('$%d.0' % i, 'I', False, True)      # primary key columns are NOT NULL
+    return t
